@@ -206,9 +206,8 @@ def tyName : Ty → String
 
 /-! ### the executable spec -/
 
-/-- spec for `ser`: reported size = number of bytes written; the bytes read back (unchecked) as the
-    value, with nothing left over; read back with validation they give the value again if it passes
-    `check`, `InvalidData` otherwise -/
+/-- spec for `ser`: reported size = number of bytes written; the bytes read back as the value with
+    nothing left over (see `back` below for values that fail `check()`) -/
 def judgeSer (t : Ty) (c : Compress) (want : Val) (impl : String) : String :=
   match impl.splitOn " " with
   | [hx, sz] =>
@@ -216,21 +215,19 @@ def judgeSer (t : Ty) (c : Compress) (want : Val) (impl : String) : String :=
     | some bs, some n =>
       if n != bs.length then "bad:size reported=" ++ hex n ++ " written=" ++ hex bs.length
       else
-        match runDecode limits t c .no bs with
-        | .ok v s =>
-          if !s.inp.isEmpty then "bad:roundtrip-leftover"
-          else if !(Val.beq v want) then "bad:roundtrip got=" ++ showVal v
-          else
-            match runDecode limits t c .yes bs with
-            | .ok v' s' =>
-              if !s'.inp.isEmpty || !(Val.beq v' want) then "bad:roundtrip-checked"
-              else "ok"
-            | .fail (.err .invalid) _ =>
-              -- a value that does not pass `check()` (only the unchecked round trip applies),
-              -- unless an `Unchecked` pin shields it, in which case `.ok` above is also fine
-              if check t want then "bad:valid-value-rejected" else "ok"
-            | .fail _ _ => "bad:roundtrip-checked-fail"
-        | .fail _ _ => "bad:roundtrip-fail"
+        -- reading back, in either validation mode: the value again with nothing left over; a value
+        -- that does not pass `check()` may instead be refused with `InvalidData` (under
+        -- `Validate::Yes`, or under a `…Checked` pin in any mode)
+        let back := fun (vd : Validate) =>
+          match runDecode limits t c vd bs with
+          | .ok v s =>
+            if !s.inp.isEmpty then "bad:roundtrip-leftover"
+            else if !(Val.beq v want) then "bad:roundtrip got=" ++ showVal v
+            else "ok"
+          | .fail (.err .invalid) _ => if check t want then "bad:valid-value-rejected" else "ok"
+          | .fail _ _ => "bad:roundtrip-fail"
+        let a := back .no
+        if a != "ok" then a else back .yes
     | _, _ => "bad:" ++ impl
   | _ => "bad:" ++ impl
 
